@@ -67,4 +67,8 @@ theorem discipline_reads :
     shows up as a further entry.) -/
 theorem head_cache_encapsulated : lcacheDirect = ["WithMaxReads: c.lcache.maxreads"] := by decide +kernel
 
+/-- **plan_immutable**: a data plan (`*glf.Filter`) is handed to every partition goroutine of a step and
+    formatted by their log calls; none of its methods assigns to it (no lazily filled or memoised field). -/
+theorem plan_immutable : planWrites = [] := by decide +kernel
+
 end Shovel.Race
